@@ -15,7 +15,7 @@ import os
 import types
 
 from run import Broken, Violation
-from builders import c13b
+from builders import c13b, c13x
 from builders.c13b import ET
 from props import c13_rtf
 from props import c13_slide
@@ -23,12 +23,18 @@ from props import c13_slide
 GEN = ["Tables", "HtmlSkip", "TablesRtf"] + c13_slide.GEN
 RULE = ("abstract documents (paragraphs + tables 1..4 x 1..4, ragged rows, empty / multi-paragraph cells, adjacent tables, "
         "tables inside cells to depth 2, header rows) written to DOCX / PPTX / ODT / ODP / HTML / EPUB / RTF and read by the real "
-        "read_*; sheets (typed values, gaps, repeats, duplicate / empty header names) written to XLSX / ODS and through stub "
-        "workbooks for XLS; + random element trees / event lists / row lists over the same vocabulary for the internal walkers. "
+        "read_*; RTF tables additionally with every separator the format allows between the table tokens (row layouts, every slot "
+        "independent, rows directly adjacent included); sheets (typed values, gaps, repeats, duplicate / empty header names) written to "
+        "XLSX (by openpyxl AND by hand: with / without <dimension>, with / without cell references, trailing / inner empty cells and empty "
+        "rows stored or omitted - ragged stored rows -, shared / inline / formula strings, typed / formula numbers, ISO / serial dates, every "
+        "optional member independent) / ODS and through stub workbooks for XLS; + random element trees / event lists / row lists over the same vocabulary for the internal walkers. "
         "distinct = distinct (format, input) pairs; non-trivial = the input holds at least one table row")
 ASSUMPTIONS = [
     "bytes -> element tree is ElementTree's / HTMLParser's (not modelled); the walkers are modelled on the tree / event list",
     "openpyxl (iter_rows(values_only=True), datetime.isoformat(), str()) and xlrd cell reading are parameters: the repo's shaping of the row lists is modelled",
+    "XLSX: what openpyxl's read-only reader makes of a hand-written worksheet part (rows of different lengths without <dimension>, padded rows with "
+    "it, shared / inline strings, t=\"d\" / serial dates) is not modelled; the row lists it yields for the generated parts are fed to the model, "
+    "and the oracle compares the end result with the written grid",
     "ODS _extract_cell_value (float parsing) is a parameter of the ODS shaping model; its typed results are checked by the search oracle",
     "int() of text:c is modelled for plain ASCII decimal forms only",
     "ODS: int() of number-columns-repeated / number-rows-repeated is a parameter (plain decimals generated); sheets are generated, replayed and "
@@ -45,7 +51,8 @@ ASSUMPTIONS = [
     "the correspondence, and the oracle reports the five open RTF findings by their mechanism",
 ] + c13_slide.ASSUMPTIONS
 TRUSTED = ["S2T/Model/Tables.lean as a transcription of the walkers (tied by this correspondence)",
-           "harness/builders/c13b.py reference writers and ground truth (search oracle)"]
+           "harness/builders/c13b.py reference writers and ground truth (search oracle)",
+           "harness/builders/c13x.py (hand-written SpreadsheetML parts) and c13r.py (RTF row layouts): reference writers of the oracle"]
 
 EX = "sharepoint2text.parsing.extractors."
 
@@ -877,6 +884,24 @@ def _corr_xlsx(ctx):
             meta.append((g, rows, res))
         if isinstance(real, str) or len(real) != len(sheets):
             bad("xlsx:read", f"read_xlsx -> {real!r}", {"fmt": "xlsx", "sheets": _enc_sheets(sheets)})
+    # hand-written worksheet parts: every optional member varied independently (no <dimension>, ragged stored rows, sparse
+    # cells, shared / inline strings, ...); the row lists openpyxl yields for them go to the model, the result to the truth
+    hand = [(gen_hand_sheet(rng), c13x.gen_opts(rng)) for _ in range(ctx.n(40, 600))] + [(g, o) for g, o in _xlsx_lattice()]
+    for g, opts in hand:
+        data = c13x.xlsx_package([g], [opts])
+        real = _read("xlsx", data)
+        case = {"fmt": "xlsx", "sheets": _enc_sheets([g]), "opts": [opts]}
+        if isinstance(real, str) or len(real) != 1:
+            bad("xlsx:read-hand", f"read_xlsx -> {real!r}", case)
+            continue
+        try:
+            rows = xlsx_rows(data)[0]
+        except Exception as e:  # noqa: BLE001
+            bad("xlsx:openpyxl-hand", f"openpyxl cannot read the written part: {type(e).__name__}: {e}", case)
+            continue
+        reqs.append({"op": "c13.xlsx", "rows": vgrid_json(rows), "strof": [str(v) for v in (rows[0] if rows else [])]})
+        meta.append(((g, opts), rows, real[0]))
+        ctx.count("xlsx/hand/dimension:%s/stored-rows:%s" % (opts["dimension"], "ragged" if len({len(r) for r in rows}) > 1 else "equal"))
     # stub worksheets: ragged tuples, odd values
     for _ in range(ctx.n(60, 1500)):
         rows = [tuple(gen_value(rng) for _ in range(rng.randint(0, 5))) for _ in range(rng.randint(0, 6))]
@@ -892,10 +917,14 @@ def _corr_xlsx(ctx):
     outs = ctx.drive(reqs)
     for (g, rows, res), o in zip(meta, outs):
         ctx.case(("xlsx", repr(rows)), nontrivial=bool(rows))
-        ctx.count("xlsx/" + ("file" if g is not None else "stub-worksheet"))
+        opts = None
+        if isinstance(g, tuple):
+            g, opts = g
+        ctx.count("xlsx/" + ("file" if g is not None and opts is None else "hand-written" if g is not None else "stub-worksheet"))
         got = res if isinstance(res, str) else vgrid_json(res["table"])
         if got != o.get("data"):
-            bad("c13.xlsx", f"impl={got!r} model={o.get('data')!r}", {"fmt": "xlsx-rows", "rows": vgrid_json(rows)})
+            bad("c13.xlsx", f"impl={got!r} model={o.get('data')!r}",
+                {"fmt": "xlsx", "sheets": _enc_sheets([g]), "opts": [opts]} if opts is not None else {"fmt": "xlsx-rows", "rows": vgrid_json(rows)})
         if not isinstance(res, str) and res["dim"] != (len(res["table"]), max((len(r) for r in res["table"]), default=0)):
             bad("dim:xlsx", f"{res!r}", {"fmt": "xlsx-rows", "rows": vgrid_json(rows)})
         if g is not None and not isinstance(res, str):
@@ -903,8 +932,66 @@ def _corr_xlsx(ctx):
             if truth and _is_name_row(truth[0]):
                 truth = truth[1:]       # open known finding xlsx.single-value-first-row-dropped (test-pinned behaviour)
             if _canon_grid(res["table"]) != _canon_grid(truth):
-                bad("truth:xlsx", f"impl={res['table']!r} ground truth={truth!r}", {"fmt": "xlsx", "sheets": _enc_sheets([g])})
+                bad("truth:xlsx", f"impl={res['table']!r} ground truth={truth!r}",
+                    {"fmt": "xlsx", "sheets": _enc_sheets([g]), **({"opts": [opts]} if opts is not None else {})})
     return broken
+
+
+def gen_hand_sheet(rng):
+    """a sheet for the hand-written writer: the source rows may have different lengths themselves"""
+    g = gen_sheet(rng)
+    if rng.random() < 0.5:
+        g = [r[:rng.randint(0, len(r))] if rng.random() < 0.4 else r for r in g]
+    g = [[v if not isinstance(v, datetime.timedelta) else str(v) for v in r] for r in g]
+    t = xlsx_truth(g)
+    if t and _is_name_row(t[0]):       # keep out of the shape of the open finding xlsx.single-value-first-row-dropped
+        g[0] = [("h%d" % j) for j in range(max(2, len(g[0])))]
+    return g
+
+
+XLSX_LATTICE_GRID = [["id", "name", "qty", "ok"], [1, "apple", None, None], [], [2, "pear", 12.5, True], [None, None, None, None],
+                     [3, None, 7, None], [None, "x"]]
+
+
+def _xlsx_lattice():
+    """a fixed sheet (stored rows of 4, 2, 0, 4, 0, 3, 2 cells when trailing empty cells are omitted; an inner gap; an
+    empty row) written once per (option, value) with only that option off the default, and for every pair
+    (dimension, trailing) - the deterministic part of the stream and the first inputs of the failing-input search"""
+    out = []
+    for k, vals in c13x.OPTIONS.items():
+        for v in vals:
+            if v != c13x.DEFAULT[k]:
+                out.append((XLSX_LATTICE_GRID, dict(c13x.DEFAULT, **{k: v})))
+    for d in c13x.OPTIONS["dimension"]:
+        for t in c13x.OPTIONS["trailing"]:
+            for r in c13x.OPTIONS["refs"]:
+                out.append((XLSX_LATTICE_GRID, dict(c13x.DEFAULT, dimension=d, trailing=t, refs=r)))
+    out.append(([["a", "b", "c"], [1], [2, 3]], dict(c13x.DEFAULT)))
+    for d in c13x.OPTIONS["dimension"]:      # the first stored row is the shortest; the last row holds data only beyond it
+        out.append(([["a"], [1, 2, 3], [None, None, "z"]], dict(c13x.DEFAULT, dimension=d)))
+        out.append(([[], ["a", "b"], [None, 5]], dict(c13x.DEFAULT, dimension=d, empty_rows="empty")))
+    out.append(([[1, 2], [], [3, 4, 5]], dict(c13x.DEFAULT, strings="inline")))
+    return out
+
+
+def _rows_to_sheet(rows_json):
+    """a stub row list (wire form) as a sheet for the hand-written writer: the same values, stored without <dimension>
+    and without trailing empty cells, so that the stored rows are as ragged as the row list"""
+    def dec(v):
+        if v is None:
+            return None
+        k, x = v
+        if k == "f":
+            return float(x)
+        if k == "d":
+            try:
+                if "T" in x:
+                    return datetime.datetime.fromisoformat(x)
+                return datetime.time.fromisoformat(x) if ":" in x else datetime.date.fromisoformat(x)
+            except ValueError:
+                return x
+        return x
+    return [[dec(v) for v in row] for row in rows_json]
 
 
 def _enc_sheets(sheets):
@@ -1400,7 +1487,8 @@ def oracle(fmt, case):
         return vs
     if fmt == "xlsx":
         sheets = [[[_dec_v(v) for v in row] for row in g] for g in case["sheets"]]
-        res = _read("xlsx", build_xlsx(sheets))
+        # "opts": written by hand (harness/builders/c13x.py), one option set per sheet; otherwise by openpyxl
+        res = _read("xlsx", c13x.xlsx_package(sheets, case["opts"]) if case.get("opts") else build_xlsx(sheets))
         truth = [xlsx_truth(g) for g in sheets]
         dropped = [t[1:] if t and _is_name_row(t[0]) else t for t in truth]
         return _check_tables(fmt, res, truth, case, known=[("xlsx.single-value-first-row-dropped", dropped)])
@@ -1463,6 +1551,10 @@ def gen_case(rng, fmt, known_shapes=False):
                 if t and _is_name_row(t[0]):
                     g[0] = [("h%d" % j) for j in range(len(g[0]))]
             sheets.append(g)
+        if rng.random() < 0.6:
+            sheets = [gen_hand_sheet(rng) if not known_shapes else [[v if not isinstance(v, datetime.timedelta) else str(v) for v in r] for r in g]
+                      for g in sheets]
+            return {"sheets": _enc_sheets(sheets), "opts": [c13x.gen_opts(rng) for _ in sheets]}
         return {"sheets": _enc_sheets(sheets)}
     if fmt == "ods":
         return {"sheets": [_enc_ods(gen_ods_sheet(rng, wide_gap_before_data=(None if known_shapes else False))) for _ in range(rng.randint(1, 2))]}
@@ -1474,6 +1566,23 @@ def gen_case(rng, fmt, known_shapes=False):
 
 
 FORMATS = ["docx", "pptx", "odt", "odp", "html", "epub", "xlsx", "ods", "xls", "rtf"] + c13_slide.FORMATS
+
+
+def _lattice(fmt):
+    """deterministic first inputs of the failing-input search: the fixed table / sheet written once per optional member"""
+    if fmt == "rtf":
+        return [{"blocks": b} for b in c13_rtf.lattice_blocks() + c13_rtf.lattice_pairs()]
+    if fmt == "xlsx":
+        pairs = []
+        ks = list(c13x.OPTIONS)
+        for i, k1 in enumerate(ks):
+            for k2 in ks[i + 1:]:
+                for v1 in c13x.OPTIONS[k1]:
+                    for v2 in c13x.OPTIONS[k2]:
+                        if v1 != c13x.DEFAULT[k1] and v2 != c13x.DEFAULT[k2]:
+                            pairs.append((XLSX_LATTICE_GRID, dict(c13x.DEFAULT, **{k1: v1, k2: v2})))
+        return [{"sheets": _enc_sheets([g]), "opts": [o]} for g, o in _xlsx_lattice() + pairs]
+    return []
 
 
 def _case_from_broken(b):
@@ -1488,7 +1597,13 @@ def _case_from_broken(b):
     if fmt in ("odp", "pptx") and "tables" in c:
         return fmt, {k: c[k] for k in ("tables", "hdr") if k in c}
     if fmt == "xlsx" and "sheets" in c:
-        return fmt, {"sheets": c["sheets"]}
+        return fmt, {k: c[k] for k in ("sheets", "opts") if c.get(k) is not None}
+    if fmt == "xlsx-rows" and "rows" in c:
+        # a row list on which model and code disagree, as a real file: the same values in a worksheet part without
+        # <dimension> whose rows store no trailing empty cells
+        g = _rows_to_sheet(c["rows"])
+        g = [[v if not (isinstance(v, str) and v == "") else None for v in r] for r in g]
+        return "xlsx", {"sheets": _enc_sheets([g]), "opts": [dict(c13x.DEFAULT)]}
     if fmt == "ods" and "rows" in c:
         return fmt, {"sheets": [c["rows"]]}
     if fmt == "xls" and "grid" in c:
@@ -1538,12 +1653,26 @@ def search(ctx, broken):
                 vs = [v for v in oracle("ods", gen_case(ctx.rng, "ods")) if v.key not in open_keys]
                 if vs:
                     return vs[:1] + [v for v in found if v.key != vs[0].key]
+        # a failing input has been found among the cases of the correspondence; where the fixed table / sheet of the
+        # lattice fails too, report that one first (small, deterministic, one optional member off the default)
+        for fmt in sorted({v.replay.get("fmt") for v in found if v.key not in open_keys} & {"rtf", "xlsx"}):
+            for case in _lattice(fmt):
+                try:
+                    vs = [v for v in oracle(fmt, case) if v.key not in open_keys]
+                except Exception:  # noqa: BLE001
+                    continue
+                if vs:
+                    return vs[:1] + found
         return found
     # formats named by the broken obligations first, then all
     named = [f for f in FORMATS if any(f in (b.name or "") or (b.case or {}).get("fmt", "").startswith(f) for b in broken)]
     order = named + [f for f in FORMATS if f not in named]
     budget = ctx.n(150, 1500)
     for fmt in order:
+        for case in _lattice(fmt):
+            add(oracle(fmt, case))
+        if any(k not in open_keys for k in keys):
+            return found
         for i in range(budget if fmt in named or not named else budget // 5):
             add(oracle(fmt, gen_case(ctx.rng, fmt)))
             if any(k not in open_keys for k in keys):
